@@ -1004,6 +1004,26 @@ class Parser:
         """Parse new expression."""
         if self._match(TokenType.NEW):
             callee = self._parse_new_expression()
+            # The constructor is a member expression: property accesses (but
+            # no calls) belong to it, as in `new ns.Point(1, 2)`
+            while True:
+                if self._match(TokenType.DOT):
+                    if self._check(TokenType.IDENTIFIER):
+                        prop_name = self._advance().value
+                    elif self._is_keyword():
+                        prop_name = self.current.type.name.lower()
+                        self._advance()
+                    else:
+                        raise self._error("Expected property name")
+                    callee = MemberExpression(
+                        callee, Identifier(prop_name), computed=False
+                    )
+                elif self._match(TokenType.LBRACKET):
+                    prop = self._parse_expression()
+                    self._expect(TokenType.RBRACKET, "Expected ']' after index")
+                    callee = MemberExpression(callee, prop, computed=True)
+                else:
+                    break
             args: List[Node] = []
             if self._match(TokenType.LPAREN):
                 args = self._parse_arguments()
